@@ -219,6 +219,33 @@ func runNumCall(f map[string]interface{}) M {
 		if gs(f, "op") == ".." {
 			src = "$count([x..y])"
 		}
+	case "agg":
+		// an aggregate over an array of doubles supplied as the input (C15 on large and tiny magnitudes)
+		xs, _ := f["xs"].([]interface{})
+		arr := make([]interface{}, 0, len(xs))
+		xl, xel := []interface{}{}, []interface{}{}
+		exact := true
+		for _, xd := range xs {
+			v, ok := numArg(xd, nil)
+			if !ok {
+				st["out"] = M{"o": "bad", "why": "operands"}
+				return st
+			}
+			arr = append(arr, v)
+			xl = append(xl, decOf(v))
+			if xe := decExactOf(v); xe != nil {
+				xel = append(xel, xe)
+			} else {
+				exact = false
+			}
+		}
+		st["name"] = gs(f, "name")
+		st["xs"] = xl
+		if exact {
+			st["xes"] = xel
+		}
+		input = arr
+		src = "$" + gs(f, "name") + "($)"
 	case "fmt":
 		st["pic"] = f["pic"]
 		src = "$formatNumber($, " + quoteJ(cpsToString(f["pic"]))
